@@ -46,10 +46,16 @@ func c06PeerStatic(hs *noise.HandshakeState) []byte {
 	}
 	return c06I.pub
 }
+// wire shape of the stub channel: 32 bytes standing for the ephemeral key, the payload, one byte standing for the
+// authentication tag (0x5A when intact)
 func c06WriteMessage(hs *noise.HandshakeState, out, payload []byte) ([]byte, *noise.CipherState, *noise.CipherState, error) {
 	s := c06Of(hs)
 	s.idx++
+	for i := 0; i < 32; i++ {
+		out = append(out, byte(0xE0+s.idx))
+	}
 	out = append(out, payload...)
+	out = append(out, 0x5A)
 	if s.idx == 2 {
 		return out, c06CS1, c06CS2, nil
 	}
@@ -57,9 +63,10 @@ func c06WriteMessage(hs *noise.HandshakeState, out, payload []byte) ([]byte, *no
 }
 func c06ReadMessage(hs *noise.HandshakeState, out, message []byte) ([]byte, *noise.CipherState, *noise.CipherState, error) {
 	s := c06Of(hs)
-	if len(message) == 0 || message[0] == 0xFF {
+	if len(message) < 33 || message[len(message)-1] != 0x5A {
 		return nil, nil, nil, errors.New("noise: message authentication failed") // state untouched
 	}
+	message = message[32 : len(message)-1]
 	s.idx++
 	if s.idx == 2 {
 		return message, c06CS1, c06CS2, nil
@@ -162,7 +169,8 @@ func VerifC07Rejected() {
 		junk = append([]byte(nil), resp...)
 		junk[1] ^= 0x01 // another handshake subtype
 	case 2:
-		junk = append(append([]byte(nil), resp[:header.Len]...), 0xFF, 1, 2) // fails Noise authentication
+		junk = append([]byte(nil), resp...) // a same-length copy of the genuine answer with a bit flipped in its tag: fails Noise authentication
+		junk[len(junk)-1] ^= verifU8("tag_flip") | 1
 	default:
 		junk = append([]byte(nil), resp[:header.Len]...) // empty Noise message
 	}
@@ -190,7 +198,8 @@ func VerifC07Rejected() {
 	c06Reset()
 	mi2, mr2 := c06Machine(true, li), c06Machine(false, lr)
 	m1, _ := mi2.Initiate(nil)
-	bad := append(append([]byte(nil), m1[:header.Len]...), 99) // a ticket the pass-through table does not hold: malformed payload
+	bad := append([]byte(nil), m1...)
+	bad[len(bad)-2] = 99 // a ticket the pass-through table does not hold: malformed payload inside an intact message
 	_, r2, e3 := mr2.ProcessPacket(nil, bad)
 	verifAssert(e3 != nil && r2 == nil && mr2.Failed(), "a malformed payload inside an authenticated message is fatal")
 	verifObserve("done", 1)
